@@ -43,6 +43,16 @@ INTSETS = st.one_of(st.lists(st.integers(-10 ** 6, 10 ** 9) | st.integers(-20, 2
                              max_size=12, unique=True))
 
 
+class StrictInt(int):
+    """An int type that converts canonical and signed decimal strings like int() and refuses everything else
+    with a LookupError (converter types need not raise ValueError)."""
+
+    def __new__(cls, s):
+        if isinstance(s, str) and not s.strip().lstrip('+-').isdigit():
+            raise LookupError('not an integer: %r' % (s,))
+        return int.__new__(cls, s)
+
+
 def strategy(tier):
     hist = gen.tiered(tier, max_ops=8, rejects=False, kinds=KINDS, node_kinds=('int', 'safestr'), attrs=False,
                        bases=[0, 0, 0, 1, -7, 1000, 2 ** 63 - 4, -(2 ** 63) - 40])
@@ -210,7 +220,7 @@ def run_case(case, rec):
             rec.check(sub, False, detail)
         rec.check('C18.fuzz.replayed', True)
         return False
-    case = dict(case, nodes=iocommon.spaced_labels(case['nodes'], case['delim']))
+    case = dict(case, nodes=iocommon.spaced_labels(case['nodes'], case['delim'], line_boundaries=False))
     d = Driver(case)
     accepted = []
     for op in case['ops']:
@@ -254,7 +264,14 @@ def run_case(case, rec):
         dl = ' ' if delim is None else delim
         lines = list(noisy)
         lines.insert(min(pos, len(lines)), dl.join(badrow) + '\n')
-        okb, B = safe(parse, lines, **kw)
+        kwb = dict(kw)
+        if (pos // 2) % 2:
+            # converter *types* whose refusal is not a ValueError: still "an unconvertible field", still TypeError
+            kwb['timestamptype'] = StrictInt
+            if nt is int:
+                kwb['nodetype'] = StrictInt
+            rec.classify('unconvertible field with a converter type that raises LookupError')
+        okb, B = safe(parse, lines, **kwb)
         rec.check('C18.type_error', (not okb) and type(B) is TypeError,
                   lambda: '%s row %r with an unconvertible field: got %r' % (ctx, badrow, B))
     # ---- compaction
